@@ -188,6 +188,12 @@ c("async_with_open", "async def f(p):\n    fh = open(p)\n    data = fh.read()\n 
 c("async_comprehension", "async def f(xs):\n    r = []\n    async for x in xs:\n        r.append(x * 2)\n    return [y async for y in xs if y], r\n")
 
 
+c("odd_spellings_else", "def f(c):\n    if c:\n        return 1\n    else :\n        return 2\nprint(f(1))\n")
+c("odd_spellings_keywords", "if(a):\n    x = 1\nelif(b) :\n    x = 2\nelse:# comment\n    x = 3\nwhile(x):x -= 1\nfor(i)in(range(2)):pass\n")
+c("odd_spellings_backslash", "def f(c):\n    if c:\n        return 1\n    else: \\\n        return 2\n")
+c("odd_spellings_def", "def  f ( a , b = 1 ) :\n    return ( a , b )\nclass  A ( object ) :\n    x = 1 ;\n")
+
+
 @functools.lru_cache(maxsize=None)
 def repo_examples():
     with open(os.path.join(HERE, "corpus", "repo_examples.json")) as f:
